@@ -4,6 +4,7 @@ import PlcModel.Graph
 import PlcModel.Analyze
 import PlcModel.Cli
 import PlcModel.Decode
+import PlcModel.Parse.Pou
 
 /-!
 # plcdrv: line protocol driver for the executable model
@@ -289,6 +290,12 @@ def handle (line : String) : String :=
     | some cs => (match semTokens cs with
         | none => "null"
         | some d => ",".intercalate (d.map toString))
+    | none => "bad-arg"
+  | ["parse", h] =>
+    match unhexText h with
+    | some cs => (match Parse.parseProgram cs with
+        | .ok sx => "OK " ++ sx.render
+        | .error c => "ERR " ++ c)
     | none => "bad-arg"
   | ["decodelex", h] =>
     match unhex h with
